@@ -112,6 +112,47 @@ def auto_discharge(prog, sink):
             ok, how = strict_index(prog, fn, sink.bb, iop, depth=2)
             if ok:
                 return True, "index: " + how
+    if sink.kind == "panic-call" and sink.what in ("slice index", "str index") and len(sink.payload.args) > 1:
+        # `s[piece.len()..]` / `s[..piece.len()]` where `piece` is a piece of `s` itself: the first item of a split of s, or
+        # (by unwrap_or / the empty-input case) s as a whole -- a piece is never longer than what it was cut from
+        from . import paths as _paths
+        from . import decision as _decision
+        rng = fn.origin(sink.payload.args[1])
+        if rng and rng[-1][0] == "agg" and rng[-1][1][1].get("adt", "").rsplit("::", 1)[-1] in ("RangeFrom", "RangeTo") and len(rng[-1][1][2]) == 1:
+            bound = rng[-1][1][2][0]
+            bst = fn.origin(bound) if bound[0] in ("c", "m") else None
+            if bst and bst[-1][0] == "call" and bst[-1][1].name == "len" and bst[-1][1].args:
+                whole = _decision.describe_deep(fn, sink.payload.args[0], 6)
+                leaves = _paths.leaf_values(fn, bst[-1][1].args[0])
+                okl = bool(leaves)
+                for lf in leaves:
+                    if lf[0] == "call" and lf[1].name == "next" and lf[1].args:
+                        it = _paths.root_call(fn, lf[1].args[0], through=_paths.TRANSPARENT + r"|Iterator>?::by_ref$")
+                        if it is not None and re.search(r"<impl (\[T\]|str)>::(split|splitn|split_terminator|split_inclusive|rsplit|rsplitn|lines|split_whitespace)$", it.callee or "") and _decision.describe_deep(fn, it.args[0], 6) == whole:
+                            continue
+                        okl = False
+                    elif lf[0] == "call" and lf[1].name == "unwrap_or" and len(lf[1].args) > 1 and _decision.describe_deep(fn, lf[1].args[1], 6) == whole:
+                        # unwrap_or(next(split(s)), s): both alternatives are pieces of s
+                        inner = _paths.root_call(fn, lf[1].args[0], through=r"$^")
+                        it = _paths.root_call(fn, inner.args[0], through=_paths.TRANSPARENT + r"|Iterator>?::by_ref$") if inner is not None and inner.name == "next" and inner.args else None
+                        if it is not None and re.search(r"<impl (\[T\]|str)>::(split|splitn|split_terminator|split_inclusive|rsplit|rsplitn|lines|split_whitespace)$", it.callee or "") and _decision.describe_deep(fn, it.args[0], 6) == whole:
+                            continue
+                        okl = False
+                    elif lf[0] == "place" and _decision.describe_deep(fn, ["c", [lf[1], lf[2]]], 6) == whole:
+                        continue
+                    else:
+                        okl = False
+                if okl and whole not in ("?", ""):
+                    return True, "range bound is the length of a piece of the indexed slice itself (first item of its split, or the slice as a whole)"
+    if sink.kind == "panic-call" and sink.what == "copy_from_slice" and len(sink.payload.args) > 1:
+        # dst.copy_from_slice(src) with dst = x.split_at(_mut)(src.len()).0 (or x[..src.len()]): equal lengths by construction
+        from . import decision as _decision
+        dst = fn.origin(sink.payload.args[0])
+        srcd = _decision.describe_deep(fn, sink.payload.args[1], 6)
+        if dst and dst[-1][0] == "call" and dst[-1][1].name in ("split_at_mut", "split_at") and len(dst[-1][1].args) > 1 and any(pr[0] == "f" and pr[1] == 0 for pr in (dst[-1][2] if len(dst[-1]) > 2 else [])):
+            n = _decision.describe_deep(fn, dst[-1][1].args[1], 6)
+            if srcd not in ("?", "") and n == "len(%s)" % srcd:
+                return True, "the destination is the first `src.len()` elements of its buffer (split_at(src.len()).0): the lengths agree by construction"
     # compiler-generated unsafe constructor calls inside format_args!
     if sink.kind == "unsafe-call" and re.search(r"^core::fmt::(Arguments::<'a>::new|rt::Argument::<'_>::new|rt::)", sink.what) and sink.mx:
         return True, "compiler-generated by format_args! (arguments constructed from the literal pieces)"
@@ -222,6 +263,49 @@ class ReachRule:
         self.R = reach.Reach(prog, roots, boundary=boundary, stop=stop)
         self.used_audit = set()
 
+    def discharge_by_inlining(self, s):
+        """A call of a local `unsafe fn` whose precondition no audit entry states: evaluate the callee's own obligations where
+        it is called -- the callee (and the caller's small local helpers) spliced into the caller, each obligation of the
+        callee's body then discharged by the automatic patterns, by the *caller's* audit entries, or because no
+        self-consistent path of the combined body reaches it (pathsens.feasible_path)."""
+        from . import inline as _inline, pathsens
+        prog, f = self.prog, s.fn
+        callee = prog.fns[s.payload.callee]
+        small = lambda caller, cal: cal.key == callee.key or (cal.crate == caller.crate and not cal.unsafe and len(cal.blocks) <= 24)
+        view = _inline.inline(prog, f, 1, small)
+        if view is f or callee.key not in (view.rec.get("inlined") or []):
+            return False, ""
+        nb = len(f.blocks)
+        inner = [x for x in reach.sinks_of(view, None, include_unsafe=True) if x.bb >= nb and (view.blocks[x.bb]["t"].get("sp") or "")]
+        # only the callee's blocks: spans of spliced statements carry the callee's file/lines; keep every sink that is not the caller's
+        own = {(x.kind, x.what, x.where) for x in reach.sinks_of(f, None, include_unsafe=True)}
+        inner = [x for x in inner if (x.kind, x.what, x.where) not in own]
+        hows = []
+        for x in inner:
+            ok, how = auto_discharge(prog, x) if not (x.kind == "unsafe-call" and x.what == s.what) else (False, "")
+            if not ok:
+                for a in list(self.audit) + COMMON:
+                    if not re.search(a["fn"], f.key) or not re.search(a["sink"], x.kind + ":" + x.what):
+                        continue
+                    for g in a["guards"]:
+                        gok, ghow = guards.verify(prog, view, x.bb, x, g)
+                        if gok:
+                            ok, how = True, "audit[%s]: %s" % (a.get("reason", ""), ghow)
+                            break
+                    if ok:
+                        break
+            if not ok:
+                try:
+                    ex = pathsens.feasible_path(view, prog, x.bb)
+                except RuntimeError:
+                    ex = [0]
+                if ex is None:
+                    ok, how = True, "no self-consistent path reaches it (the branch that leads there contradicts an earlier test of the same value)"
+            if not ok:
+                return False, "with `%s` inlined, its %s `%s` is not discharged in this caller" % (callee.name, x.kind, x.what)
+            hows.append("%s `%s`: %s" % (x.kind, x.what.rsplit("::", 1)[-1], how))
+        return True, "precondition of `%s` evaluated at this call site (callee inlined, %d obligation(s)): %s" % (callee.name, len(inner), "; ".join(hows[:3]))
+
     def run(self):
         ck, prog, rule = self.ck, self.prog, self.rule
         R = self.R
@@ -278,6 +362,12 @@ class ReachRule:
                         tried.append(ghow)
                     if ok:
                         break
+                if not ok and s.kind == "unsafe-call" and s.payload is not None and getattr(s.payload, "callee", None) in prog.fns and prog.fns[s.payload.callee].unsafe:
+                    iok, ihow = self.discharge_by_inlining(s)
+                    if iok:
+                        ok, how = True, ihow
+                    elif ihow:
+                        tried.append(ihow)
                 if not ok:
                     how = "; ".join(tried) if tried else "no automatic pattern and no audit entry applies"
             path = R.path_to(f.key)
